@@ -111,7 +111,7 @@ fn gen_stage(rng: &mut Rng, levels: &BTreeMap<u8, Vec<(u32, u32)>>, allow_invali
 /// direct oracle for `L0,<stages…>`
 fn check_chain(rt: &tokio::runtime::Runtime, out: &mut Out, w: &World, rpn: &str, coords: &[TileCoord3]) {
 	let toks: Vec<&str> = rpn.split(',').collect();
-	if toks[0] != "L0" {
+	if toks[0] != "L0" && toks[0] != "D1" {
 		return;
 	}
 	let stages: Vec<Stage> = match toks[1..].iter().map(|t| parse_stage(t)).collect::<Option<Vec<_>>>() {
@@ -143,15 +143,22 @@ fn check_chain(rt: &tokio::runtime::Runtime, out: &mut Out, w: &World, rpn: &str
 			o
 		}
 	};
-	let src = match catch(|| rt.block_on(async { w.reader(0).await })) {
-		Ok(Ok(r)) => r,
-		_ => return,
+	let src: Real = if toks[0] == "D1" {
+		match build_op(rt, w, "D1") {
+			Ok(Ok(o)) => Real::O(o),
+			_ => return,
+		}
+	} else {
+		match catch(|| rt.block_on(async { w.reader(0).await })) {
+			Ok(Ok(r)) => Real::R(r),
+			_ => return,
+		}
 	};
 	let mut kept = 0;
 	let mut dropped = 0;
 	let mut fail: Option<(String, String, TileCoord3)> = None;
 	for c in coords {
-		let want = match catch(|| rt.block_on(async { src.get_tile_data(c).await })) {
+		let want = match catch(|| rt.block_on(async { src.lookup(c).await })) {
 			Ok(Ok(b)) => b,
 			_ => continue,
 		};
@@ -294,7 +301,7 @@ pub fn run(args: &Args) {
 				}
 			}
 			out.count(&format!("world_src0_{}", specs[0].kind));
-			if specs[0].kind == "mbtiles" {
+			if base_kind(&specs[0].kind) == "mbtiles" {
 				extra.retain(|k, _| k.0 == 3);
 				specs[0].tiles.clear();
 			}
@@ -305,9 +312,9 @@ pub fn run(args: &Args) {
 		if top {
 			let m31 = u32::MAX >> 1;
 			let m30 = u32::MAX >> 2;
-			if specs[0].kind == "mbtiles" {
-				specs[0].kind = "mem".to_string();
-			}
+			// in memory: the container writers walk every 256-block of the advertised level box, and the box spanned by
+			// opposite corners of level 30/31 has 2^44 of them (observed: > 60 GB)
+			specs[0].kind = "mem".to_string();
 			for k in [(31u8, 0u32, 0u32), (31, m31, m31), (31, m31 - 1, 5), (30, 0, 0), (30, m30, m30), (30, 7, m30 - 1)] {
 				next += 1;
 				specs[0].tiles.insert(k, next);
@@ -351,6 +358,25 @@ pub fn run(args: &Args) {
 				let boxes = gen_boxes(&mut rng, z, &present, 1, 10);
 				for zf in ["Z32:n", "Z31:n", "Zn:30"] {
 					run_in_world(&rt, &mut out, &mut id, &w, "C09", "S", &format!("L0,{zf}"), &boxes_arg(&boxes));
+				}
+			}
+		}
+		// chains over from_debug (a tile at every coordinate of the pyramid: every filter boundary is visible)
+		if wi % 3 == 1 {
+			for _ in 0..2 {
+				let n_st = rng.range(1, 3);
+				let mut rpn = "D1".to_string();
+				for _ in 0..n_st {
+					rpn += ",";
+					rpn += &gen_stage(&mut rng, &levels, false);
+				}
+				out.count("chain_over_from_debug");
+				check_chain(&rt, &mut out, &w, &rpn, &coords);
+				run_in_world(&rt, &mut out, &mut id, &w, "C09", "P", &rpn, "");
+				run_in_world(&rt, &mut out, &mut id, &w, "C09", "G", &rpn, &coords_s);
+				for (z, present) in levels.iter().take(2) {
+					let boxes = gen_boxes(&mut rng, *z, present, 1, 8);
+					run_in_world(&rt, &mut out, &mut id, &w, "C09", "S", &rpn, &boxes_arg(&boxes));
 				}
 			}
 		}
@@ -413,6 +439,7 @@ pub fn run(args: &Args) {
 		}
 		w.cleanup();
 	}
+	out.notes.push("checklist: (1) zoom bounds 0, 29..33, 255, 256; bbox edges exactly on tile borders +-1e-7; level 30/31 tiles; (2) n.a. beyond C02's FaultySource (filters pass errors through unchanged); (3) payload classes via tsrc styles; (4) chains of 1-4 stages in both orders, below/above from_overlayed, over from_debug; invalid-argument battery; (5) every 4th box streamed twice; (6) concurrent streams on one operation, straggler sources; (8) all coordinates of zoom <= 4, corners of levels 30/31; (9) vtx and converter-wrapped leaves; (10) stream vs lookups, advertised pyramid vs delivered tiles, reversed chain vs same spec".to_string());
 	let _ = std::fs::remove_dir_all(&scratch);
 	out.finish();
 }
